@@ -550,6 +550,8 @@ def add_sum_n_weighted_bits_naive(
     """
 
     res = []
+    if isinstance(basis, str):
+        basis = GenerationBasis(basis.upper())
     input_labels_with_pow = list(input_labels_with_pow)
     single = SortedList(input_labels_with_pow)  # sorted list of single
     pairs = SortedList()  # sorted list of pairs
@@ -623,6 +625,8 @@ def add_sum_n_weighted_bits(
     """
 
     res = []
+    if isinstance(basis, str):
+        basis = GenerationBasis(basis.upper())
 
     single = SortedList(list(input_labels_with_pow))  # sorted list of single
     pairs = SortedList()  # sorted list of pairs
